@@ -37,55 +37,9 @@ func init() {
 	}
 }
 
-const c15NPol = 6
+const c15NPol = simNPol
 
-// c15Policy returns the catalogue entry k as API objects (nil = no policy).
-func c15Policy(k int, name string) ([]*api.DefinedSet, *api.Policy) {
-	st := &api.Statement{Name: name + "-st", Conditions: &api.Conditions{}, Actions: &api.Actions{}}
-	var sets []*api.DefinedSet
-	switch k {
-	case 0:
-		return nil, nil
-	case 1: // reject prefix 0
-		sets = append(sets, &api.DefinedSet{DefinedType: api.DefinedType_DEFINED_TYPE_PREFIX, Name: name + "-ps",
-			Prefixes: []*api.Prefix{{IpPrefix: simPrefixes[0], MaskLengthMin: 24, MaskLengthMax: 24}}})
-		st.Conditions.PrefixSet = &api.MatchSet{Type: api.MatchSet_TYPE_ANY, Name: name + "-ps"}
-		st.Actions.RouteAction = api.RouteAction_ROUTE_ACTION_REJECT
-	case 2: // reject community 65000:77 (carried by route variant 1)
-		sets = append(sets, &api.DefinedSet{DefinedType: api.DefinedType_DEFINED_TYPE_COMMUNITY, Name: name + "-cs", List: []string{"^65000:77$"}})
-		st.Conditions.CommunitySet = &api.MatchSet{Type: api.MatchSet_TYPE_ANY, Name: name + "-cs"}
-		st.Actions.RouteAction = api.RouteAction_ROUTE_ACTION_REJECT
-	case 3: // set MED
-		st.Actions.Med = &api.MedAction{Type: api.MedAction_TYPE_REPLACE, Value: 500}
-		st.Actions.RouteAction = api.RouteAction_ROUTE_ACTION_ACCEPT
-	case 4: // prepend
-		st.Actions.AsPrepend = &api.AsPrependAction{Asn: 65099, Repeat: 1}
-		st.Actions.RouteAction = api.RouteAction_ROUTE_ACTION_ACCEPT
-	case 5: // add community
-		st.Actions.Community = &api.CommunityAction{Type: api.CommunityAction_TYPE_ADD, Communities: []string{"65000:99"}}
-		st.Actions.RouteAction = api.RouteAction_ROUTE_ACTION_ACCEPT
-	}
-	return sets, &api.Policy{Name: name, Statements: []*api.Statement{st}}
-}
-
-func (sc *c15Scenario) setPolicies(w *simWorld) {
-	req := &api.SetPoliciesRequest{}
-	for _, d := range []struct {
-		k    int
-		name string
-		dir  api.PolicyDirection
-	}{{sc.imp, "imp", api.PolicyDirection_POLICY_DIRECTION_IMPORT}, {sc.exp, "exp", api.PolicyDirection_POLICY_DIRECTION_EXPORT}} {
-		sets, pol := c15Policy(d.k, d.name)
-		req.DefinedSets = append(req.DefinedSets, sets...)
-		as := &api.PolicyAssignment{Name: table.GLOBAL_RIB_NAME, Direction: d.dir, DefaultAction: api.RouteAction_ROUTE_ACTION_ACCEPT}
-		if pol != nil {
-			req.Policies = append(req.Policies, pol)
-			as.Policies = []*api.Policy{pol}
-		}
-		req.Assignments = append(req.Assignments, as)
-	}
-	w.must(w.s.SetPolicies(context.Background(), req))
-}
+func (sc *c15Scenario) setPolicies(w *simWorld) { simSetPolicies(w, sc.imp, sc.exp) }
 
 func (sc *c15Scenario) Enabled(w *simWorld) []simEvent {
 	ev := sc.simRoutesScenario.Enabled(w)
